@@ -26,8 +26,9 @@ def orderStep (pre : Snap) (t : Track) (s : Step) : Bool :=
 /-- One batch in flight: a produce request that is not a retry is made only when NO PRODUCE REQUEST IS UNANSWERED
     (none was made yet, or the client has answered the last one - in this very step at the latest); it carries only
     sends that were never in a request, and is made only when every send of every earlier request has fired (the
-    earlier batches are resolved) - given the client accounted for every payload (C07).  A retry carries only sends
-    of the request it retries. -/
+    earlier batches are resolved) - except the sends of a batch for which the client did not account for every
+    payload (C07; `ex1`: that batch only, not the ones before or after).  A retry carries only sends of the request
+    it retries. -/
 def oneBatchOk (retry : Bool) (t : Track) : Ob → Bool
   | .produce _ ps =>
     if retry then
@@ -36,7 +37,7 @@ def oneBatchOk (retry : Bool) (t : Track) : Ob → Bool
       | none => false
     else
       (t.cur.isNone || t.curRes.isSome) &&
-      (payloadSids ps).all (· ∉ t.produced) && (!t.acct || t.produced.all (· ∈ t.fired))
+      (payloadSids ps).all (· ∉ t.produced) && t.produced.all (fun x => t.fired.contains x || t.ex1.contains x)
   | _ => true
 
 def oneBatchStep (pre : Snap) (t : Track) (s : Step) : Bool :=
